@@ -18,7 +18,7 @@ from concurrent.futures import ProcessPoolExecutor
 
 REPO = os.environ.get('VERIF_REPO', '/repo')
 VERIF = os.path.dirname(os.path.dirname(os.path.abspath(__file__)))
-CACHE = os.path.join(VERIF, '.cache')
+CACHE = os.environ.get('VERIF_CACHE_DIR') or os.path.join(VERIF, '.cache')
 SCRATCH_ROOT = '/var/tmp'
 FORMAT_VERSION = 7
 
@@ -270,6 +270,10 @@ def build(repo=None, jobs=None, verbose=False):
     cdir = os.path.join(CACHE, key)
     metaf = os.path.join(cdir, 'meta.json')
     if os.path.exists(metaf):
+        try:
+            os.utime(cdir)       # mark as in use (pruning spares recently used entries)
+        except OSError:
+            pass
         with open(metaf) as f:
             return cdir, json.load(f)
     t0 = time.time()
@@ -332,7 +336,10 @@ def _prune_cache(keep, maxn=4):
     except OSError:
         return
     ents.sort(reverse=True)
-    for _, d in ents[maxn - 1:]:
+    now = time.time()
+    for mt, d in ents[maxn - 1:]:
+        if now - mt < 1800:
+            continue             # possibly in use by a concurrent run on another tree
         shutil.rmtree(os.path.join(CACHE, d), ignore_errors=True)
 
 
